@@ -555,7 +555,8 @@ def _assess_fit(
     if bkg_goodness_stats is not None:
         if bkg_goodness_stats['aic'] < goodness_stats['aic']:
             return FitAssessment.background_is_better
-    if (goodness_stats['p_value'] < fit_requirements.min_p_value).value:
+    if not (goodness_stats['p_value'] >= fit_requirements.min_p_value).value:
+        # `not >=` instead of `<`: a NaN p-value (no degrees of freedom) must not pass
         return FitAssessment.p_too_small
     if _peak_is_near_edge(data, popt):
         return FitAssessment.peak_near_edge
